@@ -18,7 +18,7 @@ import (
 // lists of arbitrary lengths (the second node adding up to three new ones),
 // actions with asset dependencies (one of them missing) and templates that
 // refer to fields, globals and the parent run.
-// cover: categories-merged, two-new-categories, missing-dependency
+// cover: categories-merged, two-new-categories, missing-dependency, two-issue-types-on-one-node
 func VerifC08_Inspect() {
 	env := envs.NewBuilder().WithAllowedLanguages("eng", "spa", "fra").Build()
 	sa := verifNewAssets()
@@ -49,6 +49,8 @@ func VerifC08_Inspect() {
 			actions.NewSendMsg("a1", "hi @fields.gender @globals.org_name", nil, []string{"yes", "@fields.gender"}, false),
 			actions.NewAddContactGroups("a2", []*assets.GroupReference{assets.NewGroupReference("b0000000-0000-4000-8000-000000000001", "Testers"), assets.NewGroupReference("b0000000-0000-4000-8000-000000000009", "Gone")}),
 			actions.NewSetContactField("a3", assets.NewFieldReference("gender", "Gender"), "@parent.results.x"),
+			// a second kind of issue on the same node as the missing dependency: legacy variables
+			actions.NewStartSession("a5", assets.NewFlowReference(verifFlowUUID(0), "F0"), nil, nil, "", nil, []string{"@contact.groups"}, false),
 		}, r0, e0)
 		node1 := definition.NewNode(verifNodeUUID(0, 1), []flows.Action{actions.NewSetRunResult("a4", "Color", "x", "Pink")}, r1, e1)
 		f, err := definition.NewFlow(verifFlowUUID(0), "F0", "eng", flows.FlowTypeMessaging, 1, 10, loc, []flows.Node{node0, node1}, nil, nil)
@@ -74,6 +76,15 @@ func VerifC08_Inspect() {
 		if len(r.NodeUUIDs) > 1 {
 			zzverif.Cover("categories-merged")
 		}
+	}
+	types := map[string]bool{}
+	for _, is := range insp.Issues {
+		if is.NodeUUID() == verifNodeUUID(0, 0) {
+			types[is.Type()] = true
+		}
+	}
+	if len(types) >= 2 {
+		zzverif.Cover("two-issue-types-on-one-node")
 	}
 	for _, d := range insp.Dependencies {
 		if d.Missing() {
